@@ -116,6 +116,21 @@ def rule_r1(repo, run):
                           "splicer_path must be '' or join(names) + %r, got %s" % (sep, um.seg(v)), um.loc(node))
 
 
+def _unwrap_tab_filter(um, node):
+    """`self._user_code(x)` -> x when the method does nothing but turn the tabs of each line into blanks (the text is
+    otherwise unchanged: the property is about the characters of the user's code, a tab is white space)"""
+    if isinstance(node, ast.Call) and isinstance(node.func, ast.Attribute) and pyflow.is_name(node.func.value, "self") and len(node.args) == 1:
+        fq = "WrapperMixin.%s" % node.func.attr
+        if um.has_func(fq):
+            fn = um.func(fq)
+            body = [st for st in fn.body if not (isinstance(st, ast.Expr) and isinstance(st.value, ast.Constant))]
+            if len(body) == 1 and isinstance(body[0], ast.Return) and isinstance(body[0].value, ast.ListComp):
+                elt = ast.unparse(body[0].value.elt)
+                if re.fullmatch(r"line\.expandtabs\(\)( if isinstance\(line, str\) else line)?", elt):
+                    return node.args[0]
+    return node
+
+
 def rule_r2(repo, run):
     R = run.rule("C12.R2", "precedence force > user splicer > default, whole list each")
     um = repo.module("util")
@@ -156,7 +171,7 @@ def rule_r2(repo, run):
             continue
         if "force" in names_in(test):
             order.append("force")
-            run.check(R, "arm.force", pyflow.is_name(ext.args[0], "force"),
+            run.check(R, "arm.force", pyflow.is_name(_unwrap_tab_filter(um, ext.args[0]), "force"),
                       "force arm must extend the output with `force`", loc)
         elif "default" in names_in(test):
             order.append("default")
@@ -165,8 +180,8 @@ def rule_r2(repo, run):
         elif any(isinstance(n, ast.Compare) and isinstance(n.ops[0], ast.In) for n in ast.walk(test)):
             order.append("user")
             # value looked up under the same name
-            src = um.seg(ext.args[0])
-            ok = isinstance(ext.args[0], ast.Name) or "splicer_stack" in src
+            src = um.seg(_unwrap_tab_filter(um, ext.args[0]))
+            ok = isinstance(_unwrap_tab_filter(um, ext.args[0]), ast.Name) or "splicer_stack" in src
             run.check(R, "arm.user", ok, "user arm must extend the output with the stored splicer list", loc)
     run.check(R, "order", order == ["force", "user", "default"],
               "precedence chain is %s, documented order is force > user splicer > default" % order, loc,
@@ -349,6 +364,17 @@ for MV_S in MV_L[:-1]:
     # mismatched begin/end raises
     raises = [n for n in ast.walk(r) if isinstance(n, ast.Raise)]
     run.check(R, "reader.mismatch-raises", len(raises) >= 1, "mismatched begin/end tags must raise", loc)
+    # a block that is defined twice is reported: the test looks up the key the block is stored under
+    if stores:
+        key = ast.unparse(stores[0].targets[0].slice)
+        cont = ast.unparse(stores[0].targets[0].value)
+        dup = [i for i in ast.walk(r) if isinstance(i, ast.If) and isinstance(i.test, ast.Compare) and isinstance(i.test.ops[0], ast.In)
+               and ast.unparse(i.test.comparators[0]) == cont and any(isinstance(x, ast.Raise) for st in i.body for x in ast.walk(st))]
+        run.check(R, "splicer.get_splicers:duplicate-test-key", bool(dup) and all(ast.unparse(i.test.left) == key for i in dup),
+                  "blocks are stored as `%s[%s]` and the test that refuses a second definition looks up `%s`: for a dotted name "
+                  "(`function.beta`) the full tag is never a key of the innermost dictionary, a block defined in two splicer files "
+                  "is accepted and the later text silently replaces the earlier"
+                  % (cont, key, ast.unparse(dup[0].test.left) if dup else "nothing"), sm.loc(dup[0]) if dup else loc)
 
 
 def rule_r5(repo, run):
@@ -427,8 +453,34 @@ def rule_r6(repo, run):
     w = um.func("WrapperMixin._create_splicer")
     ext = [c for c in ast.walk(w) if isinstance(c, ast.Call) and (pyflow.call_name(c) or "").endswith(".extend")]
     run.check(R, "util.WrapperMixin._create_splicer:verbatim", len(ext) == 3 and all(
-        isinstance(c.args[0], ast.Name) for c in ext),
+        isinstance(_unwrap_tab_filter(um, c.args[0]), ast.Name) for c in ext),
         "splicer lists must be passed on unchanged (out.extend(list))", um.loc(w))
+
+
+def rule_r6b(repo, run):
+    R = run.rule("C12.R6", "user splicer lines reach the layout interpreter unescaped")
+    um = repo.module("util")
+    cs = um.func("WrapperMixin._create_splicer")
+    n = 0
+    for c in ast.walk(cs):
+        if not (isinstance(c, ast.Call) and isinstance(c.func, ast.Attribute) and c.func.attr == "extend" and c.args):
+            continue
+        arg = c.args[0]
+        if not pyflow.is_name(c.func.value, "out") or "default" in [x.id for x in ast.walk(arg) if isinstance(x, ast.Name)]:
+            continue      # the generated default needs no treatment
+        n += 1
+        ok = False
+        if isinstance(arg, ast.Call):
+            callee = arg.func.attr if isinstance(arg.func, ast.Attribute) else getattr(arg.func, "id", "")
+            fq = "WrapperMixin.%s" % callee
+            if um.has_func(fq):
+                body = ast.unparse(um.func(fq))
+                ok = "expandtabs" in body or "replace('\\t'" in body
+        run.check(R, "util.WrapperMixin._create_splicer:user-code:tabs@%s" % re.sub(r"\s+", "", ast.unparse(arg))[:30], ok,
+                  "user code is added to the output as it is (`%s`): a tab in it is the layout language's break hint and is deleted "
+                  "when the line is written - `if (a)<TAB>return<TAB>1;` becomes `if (a)return1;`" % ast.unparse(c), um.loc(c))
+    if n < 1:
+        raise AnalysisError("C12.R6: the user-code branches of _create_splicer were not found")
 
 
 def rule_r7(repo, run):
@@ -846,6 +898,7 @@ def run(repo, run, tier):
     rule_r4(repo, run)
     rule_r5(repo, run)
     rule_r6(repo, run)
+    rule_r6b(repo, run)
     rule_r7(repo, run)
     rule_r8(repo, run)
     rule_r9(repo, run)
